@@ -12,7 +12,7 @@ import (
 // C16 — every string and key can be written literally and decodes to itself
 // (form G; round trip, oracle = the string itself).
 
-var c16Alphabet = []string{"a", "'", `"`, "`", `\`, "/", " ", "\n", "\t", "\x01", "é", "€", "😀", "�", "u", "0"}
+var c16Alphabet = []string{"a", "'", `"`, "`", `\`, "/", " ", "\n", "\t", "\x01", "é", "€", "😀", "�", "u", "0", "n", "b"}
 
 func c16Runes(s string) []rune { return []rune(s) }
 
@@ -111,7 +111,7 @@ func init() {
 	core.Register(&core.Check{
 		ID:    "C16",
 		Title: "every string and key can be written literally and decodes to itself",
-		Rule: "every string up to the stated length over the 16-symbol alphabet (quotes, backslash, backtick, slash, space, LF, TAB, U+0001, 2-, 3- and 4-byte characters, U+FFFD, letters that look like escapes) is written in every spelling the grammar allows " +
+		Rule: "every string up to the stated length over the 18-symbol alphabet (quotes, backslash, backtick, slash, space, LF, TAB, U+0001, 2-, 3- and 4-byte characters, U+FFFD, letters that look like escapes) is written in every spelling the grammar allows " +
 			"(raw string with escaped and with preserved backslashes; JSON literal minimal / all \\\\uXXXX incl. surrogate pairs / short escapes, inside an array, with JSON whitespace; quoted identifier in three spellings as a key, after a dot and as a multi-select hash key) " +
 			"and must compile and evaluate to exactly that string or select exactly that member; every JSON value of depth <= 2 over the number/string spelling alphabet is written between backticks and must evaluate to that value with the number text preserved; " +
 			"non-trivial = a non-empty string; distinct_nontrivial counts distinct strings among them",
@@ -188,6 +188,26 @@ func c16Run(r *core.Run) {
 		}
 	}
 	rec("", 0)
+	// boundary code points of the UTF-8 and UTF-16 encodings: every string of one or two of them, all spellings
+	boundary := []string{"\u007f", "\u0080", "\u07ff", "\u0800", "\ud7ff", "\ue000", "\ufffd", "\ufffe", "\uffff", "\U00010000", "\U000103ff", "\U00010400", "\U0001f600", "\U0010f800", "\U0010fbff", "\U0010fc00", "\U0010ffff", "\\", "'"}
+	r.Bound("boundary_code_points", len(boundary))
+	bn := 0
+	for _, a := range append([]string{""}, boundary...) {
+		for _, b := range boundary {
+			bn++
+			if !r.Mine(bn) {
+				continue
+			}
+			str := a + b
+			r.Add("states", 1)
+			for _, sp := range c16Spellings(str) {
+				r.Begin(map[string]any{"expr": sp.Expr, "doc": sp.Doc})
+				if v := c16CheckSpelling(r, str, sp); v != nil {
+					r.Violate(v)
+				}
+			}
+		}
+	}
 	// lone surrogate escapes followed by a tail: the decoder may reject the identifier or substitute U+FFFD,
 	// but it must not swallow or reinterpret the characters that follow
 	tailAlpha := []string{"a", "u", "0", "4", "1", "D", "E", `\\`, `\u`, `\uDE00`, "x"}
@@ -221,7 +241,7 @@ func c16Run(r *core.Run) {
 		if !r.Mine(i) {
 			continue
 		}
-		for _, ws := range []bool{false, true} {
+		for _, ws := range []string{"", "all", "leading", "trailing"} {
 			if viol := c16CheckValue(r, v, ws); viol != nil {
 				r.Violate(viol)
 			}
@@ -229,11 +249,16 @@ func c16Run(r *core.Run) {
 	}
 }
 
-func c16CheckValue(r *core.Run, v string, ws bool) *core.Violation {
+func c16CheckValue(r *core.Run, v string, ws string) *core.Violation {
 	body := strings.ReplaceAll(v, "`", "\\`")
-	if ws {
+	switch ws {
+	case "all":
+		// JSON whitespace around every structural character (the alphabet has no comma or colon inside strings)
 		body = " \t" + strings.ReplaceAll(strings.ReplaceAll(body, ",", " ,\n"), ":", " : ") + "\r\n"
-		// do not touch commas/colons inside strings: the alphabet has none
+	case "leading":
+		body = "\n " + body
+	case "trailing":
+		body = body + " \t"
 	}
 	expr := "`" + body + "`"
 	o := core.Search(expr, nil)
@@ -251,7 +276,7 @@ func c16CheckValue(r *core.Run, v string, ws bool) *core.Violation {
 	if ok {
 		return nil
 	}
-	return &core.Violation{Sig: "C16/json-value/" + o.Kind + "/" + fmt.Sprint(ws), Desc: fmt.Sprintf("Search(%q, null)", expr),
+	return &core.Violation{Sig: "C16/json-value/" + o.Kind + "/ws-" + ws, Desc: fmt.Sprintf("Search(%q, null)", expr),
 		Point: map[string]any{"value": v, "ws": ws, "expr": expr, "doc": "null"}, Expected: "ok " + core.ToJSONText(want), Actual: o.Short() + " " + core.ToJSONText(o.Raw)}
 }
 
@@ -292,7 +317,7 @@ func c16Judge(r *core.Run, phase string, pt map[string]any) *core.Violation {
 		return c16CheckLone(r, pstr(pt, "tail"))
 	}
 	if v := pstr(pt, "value"); v != "" {
-		return c16CheckValue(r, v, pbool(pt, "ws"))
+		return c16CheckValue(r, v, pstr(pt, "ws"))
 	}
 	return c16CheckSpelling(r, pstr(pt, "s"), c16Spelling{Name: pstr(pt, "spelling"), Expr: pstr(pt, "expr"), Doc: pstr(pt, "doc"), Want: pstr(pt, "want")})
 }
